@@ -1,4 +1,175 @@
 import EaselModel.Core.Proto
-/-! Line-protocol driver for the C16 model (stub: answers bad-op until the model lands). -/
-open EaselModel.Proto
-def main : IO Unit := runDriver () (fun s _ => (s, "bad-op"))
+import EaselModel.Random.Model
+import EaselModel.Weights.Model
+/-! Line-protocol driver for the C16 model (`Float` instance of `EaselModel.Weights`). Mirrors harness/h_weights.c. -/
+open EaselModel EaselModel.Proto EaselModel.Weights EaselModel.Random
+
+structure S where
+  mode : Nat := 0                -- 0 text, 1 amino, 2 dna, 3 rna
+  rows : Array Row := #[]
+  rf : Option Row := none
+
+def S.abc (s : S) : Abc := if s.mode == 1 then Abc.amino else Abc.dna
+def S.m (s : S) : Mode := if s.mode == 0 then Mode.text else Mode.digital s.abc
+def S.alen (s : S) : Nat := match s.rows[0]? with | some r => r.length | none => 0
+
+def hex64 (x : UInt64) : String :=
+  let d := Nat.toDigits 16 x.toNat
+  String.ofList (List.replicate (16 - d.length) '0' ++ d)
+
+def fbits (x : Float) : String := hex64 x.toBits
+
+def parseHexNat (w : String) : Option Nat :=
+  w.toList.foldl (fun acc c => acc.bind fun a => (hexVal c).map fun d => a * 16 + d) (some 0)
+
+def argBits (ws : List String) (k : String) : Float :=
+  match (arg? ws k).bind parseHexNat with
+  | some n => Float.ofBits (UInt64.ofNat n)
+  | none => Float.ofBits 0
+
+def argF32 (ws : List String) (k : String) (dflt : Float32) : Float32 :=
+  match (arg? ws k).bind parseHexNat with
+  | some n => Float32.ofBits (UInt32.ofNat n)
+  | none => dflt
+
+def half32 : Float32 := Float32.ofBits 0x3f000000
+
+def dlist (xs : List Float) : String := if xs.isEmpty then "-" else ",".intercalate (xs.map fbits)
+def nlist (xs : List Nat) : String := if xs.isEmpty then "-" else ",".intercalate (xs.map toString)
+
+/-- `(int) ceil( fragthresh * (float) msa->alen )` -/
+def minspanOf (ft : Float32) (alen : Nat) : Int := ((ft * Float32.ofNat alen).toFloat.ceil).toInt64.toInt
+
+/-- `((float) ct[apos][K] / (float) tot) < symfrac` -/
+def ruleOf (sf : Float32) (gap tot : Nat) : Bool := Float32.ofNat gap / Float32.ofNat tot < sf
+
+def sortAsc (xs : List Nat) : List Nat := (xs.toArray.qsort (· < ·)).toList
+
+def weightsLine (s : S) (w : List Float) : String := s!"ok hw={if s.rows.size == 1 then 0 else 1} w={dlist w}"
+
+def step (s : S) (line : String) : S × String :=
+  let ws := words line
+  let rows := s.rows.toList
+  let ready := s.rows.size ≥ 1
+  match ws with
+  | "abc" :: _ =>
+    match arg? ws "t" with
+    | some "text" => ({ mode := 0 }, "ok")
+    | some "amino" => ({ mode := 1 }, "ok")
+    | some "dna" => ({ mode := 2 }, "ok")
+    | some "rna" => ({ mode := 3 }, "ok")
+    | _ => (s, "bad-op")
+  | "clear" :: _ => ({ s with rows := #[], rf := none }, "ok")
+  | "row" :: _ =>
+    match argHex? ws "h" with
+    | some b =>
+      if b.length < 1 || (s.rows.size > 0 && b.length != s.alen) then (s, "bad-op")
+      else if (s.mode == 0 && b.any (· == 0)) || (s.mode != 0 && b.any (fun c => c.toNat ≥ s.abc.Kp)) then (s, "bad-op")
+      else ({ s with rows := s.rows.push b }, s!"ok {s.rows.size + 1}")
+    | none => (s, "bad-op")
+  | "rf" :: _ =>
+    match argHex? ws "h" with
+    | some b =>
+      if s.rows.size == 0 || b.length != s.alen || b.any (fun c => c == 0 || c ≥ 128) then (s, "bad-op")
+      else ({ s with rf := some b }, "ok")
+    | none => (s, "bad-op")
+  | "pairid" :: _ =>
+    match argNat? ws "i", argNat? ws "j" with
+    | some i, some j =>
+      if !ready || i ≥ s.rows.size || j ≥ s.rows.size then (s, "bad-op") else
+      match pairId (α := Float) s.m (rows.getD i []) (rows.getD j []) with
+      | some (p, nid, n) => (s, s!"ok {fbits p} {nid} {n}")
+      | none => (s, s!"einval {fbits 0.0} 0 0")
+    | _, _ => (s, "bad-op")
+  | "pairstr" :: _ =>
+    match argHex? ws "a", argHex? ws "b" with
+    | some a, some b =>
+      let bad := fun (r : Row) => (s.mode == 0 && r.any (· == 0)) || (s.mode != 0 && r.any (fun c => c.toNat ≥ s.abc.Kp))
+      if bad a || bad b then (s, "bad-op") else
+      match pairId (α := Float) s.m a b with
+      | some (p, nid, n) => (s, s!"ok {fbits p} {nid} {n}")
+      | none => (s, s!"einval {fbits 0.0} 0 0")
+    | _, _ => (s, "bad-op")
+  | "pairidmx" :: _ =>
+    if !ready then (s, "bad-op") else
+    (s, "ok " ++ ",".intercalate ((pairIdMx (α := Float) s.m rows).map dlist))
+  | "diffmx" :: _ =>
+    if !ready then (s, "bad-op") else
+    (s, "ok " ++ dlist (diffMx (α := Float) s.m rows).toList)
+  | "slink" :: _ =>
+    if !ready then (s, "bad-op") else
+    let cl := msaSingleLinkage s.m (argBits ws "maxid") rows
+    let asg := assignment cl rows.length
+    (s, s!"ok nc={cl.length} c={nlist asg} nin={nlist (clusterSizes asg cl.length)}")
+  | "cluster" :: _ =>
+    match argNat? ws "n", arg? ws "adj" with
+    | some n, some adj =>
+      let m := adj.toList.toArray
+      if n < 1 || m.size != n * n then (s, "bad-op") else
+      let cl := singleLinkage (fun v w => m.getD (v * n + w) '0' == '1') n
+      (s, s!"ok nc={cl.length} c={nlist (assignment cl n)}")
+    | _, _ => (s, "bad-op")
+  | "qsort" :: _ =>
+    match arg? ws "w" with
+    | some w =>
+      let ds := (w.splitOn ",").map fun t => match parseHexNat t with
+        | some n => Float.ofBits (UInt64.ofNat n) | none => 0.0
+      (s, "ok " ++ nlist (quicksort (cmpDecreasing ds) ds.length))
+    | none => (s, "bad-op")
+  | "pb" :: _ =>
+    if !ready then (s, "bad-op") else
+    if s.mode == 0 then (s, weightsLine s (pbText (α := Float) rows))
+    else (s, weightsLine s (pbDigital (α := Float) s.abc (ruleOf half32) (minspanOf half32 s.alen) s.rf rows))
+  | "pbadv" :: _ =>
+    if !ready || s.mode == 0 then (s, "bad-op") else
+    let irf := (argNat? ws "irf").getD 0
+    let ft := argF32 ws "ft" half32
+    let sf := argF32 ws "sf" half32
+    let ms := minspanOf ft s.alen
+    let rf := if irf != 0 then none else s.rf
+    if rows.length == 1 then
+      (s, s!"ok hw=0 rf=0 all=0 allcols=0 samp=0 nfrag=0 ncons=0 cons=- w={dlist [1.0]}")
+    else
+    let ci := pbConsensus s.abc (ruleOf sf) rf (rows.map (rowInfo s.abc ms)) s.alen
+    let w := pbDigitalWith (α := Float) s.abc ms ci.cols rows
+    let b := fun (x : Bool) => if x then 1 else 0
+    (s, s!"ok hw=1 rf={b ci.byRf} all={b ci.byAll} allcols={b ci.allCols} samp=0 nfrag={nFragments s.abc ms rows} ncons={ci.cols.length} cons={nlist (ci.cols.map (· + 1))} w={dlist w}")
+  | "blosum" :: _ =>
+    if !ready then (s, "bad-op") else (s, weightsLine s (blosum s.m (argBits ws "maxid") rows))
+  | "gsc" :: _ =>
+    if !ready then (s, "bad-op") else (s, weightsLine s (gsc (α := Float) s.m rows))
+  | "idfilter" :: _ =>
+    if !ready then (s, "bad-op") else
+    let maxid := argBits ws "maxid"
+    let kept :=
+      if s.mode == 0 then idFilterText maxid rows
+      else
+        let ms := minspanOf half32 s.alen
+        let cols := filterConsensus s.abc (ruleOf half32) ms s.rf rows s.alen
+        idFilterDigital s.abc maxid (rows.map fun r => Float.ofNat (conscover s.abc cols r)) rows
+    (s, s!"ok same=1 kept={nlist (sortAsc kept)}")
+  | "idfilteradv" :: _ =>
+    if !ready || s.mode == 0 then (s, "bad-op") else
+    let maxid := argBits ws "maxid"
+    let irf := (argNat? ws "irf").getD 0
+    let ft := argF32 ws "ft" half32
+    let sf := argF32 ws "sf" half32
+    let pref := (argNat? ws "pref").getD 1
+    let seed := (argNat? ws "seed").getD 42
+    let n := rows.length
+    let sortwgt : List Float :=
+      if pref == 1 then
+        let ms := minspanOf ft s.alen
+        let rf := if irf != 0 then none else s.rf
+        let cols := filterConsensus s.abc (ruleOf sf) ms rf rows s.alen
+        rows.map fun r => Float.ofNat (conscover s.abc cols r)
+      else if pref == 2 then
+        ((List.range n).foldl (fun (acc : List Float × Rng64) _ =>
+            let (x, r) := acc.2.next
+            (acc.1 ++ [Float.ofNat (dblNum x) * (1.0 / 9007199254740992.0)], r)) ([], Rng64.create (UInt64.ofNat seed))).1
+      else (List.range n).map fun i => Float.ofNat (n - i)
+    if pref < 1 || pref > 3 then (s, "bad-op") else
+    (s, s!"ok same=1 kept={nlist (sortAsc (idFilterDigital s.abc maxid sortwgt rows))}")
+  | _ => (s, "bad-op")
+
+def main : IO Unit := runDriver ({} : S) step
